@@ -386,6 +386,11 @@ def _outside_loop(ctx, cls, loop: SolveLoop, col):
     construct = f"{cls.name}.solve"
     # bookkeeping that never flows into results / stopping / saving is not state whose accounting this rule protects
     L = loop.loop_carried() & loop.relevant_attrs()
+    from .common import collaborator_attrs
+    collab = collaborator_attrs(ctx, cls)
+    if L & set(collab):
+        raise AnalysisError(f"{cls.name}.solve: loop-carried state is kept inside collaborator object(s) {sorted(L & set(collab))}; "
+                            "writes go through that object's methods, which the attribute-level analysis does not follow")
     col.saw("loop-carried", f"{cls.name}: {sorted(L)}")
     g = loop.cfg
     pre = [n for n in g.stmts() if n.id not in loop.members and n is not loop.header and g.dominates(n, loop.header)]
